@@ -3,6 +3,7 @@ CONSTANTS
   Shapes <- ModelShapes
   Decoder = "perread"
   Cache = "refresh"
+  Limit = 0
 INVARIANTS TypeOK PrefixOK CompleteOK Quiescent
 PROPERTIES AppendOnly
 VIEW View
